@@ -370,3 +370,36 @@ Proof.
   apply N.eqb_neq in H1, H3. rewrite H1, H2, H3.
   reflexivity.
 Qed.
+
+(* ---------------- C18: shape of escape ---------------- *)
+Inductive Esc : list N -> list N -> Prop :=
+| Esc_nil : Esc [] []
+| Esc_plain c s e : is_special c = false -> Esc s e -> Esc (c :: s) (c :: e)
+| Esc_special c s e : is_special c = true -> Esc s e -> Esc (c :: s) (92 :: c :: e).
+
+Lemma escape_Esc s : Esc s (escape s).
+Proof.
+  induction s as [|c s IH]; [constructor|]. rewrite escape_cons.
+  destruct (is_special c) eqn:E; simpl; constructor; assumption.
+Qed.
+
+Lemma unescape_plain c t : c <> 92 -> unescape (c :: t) = c :: unescape t.
+Proof.
+  intro H. simpl. destruct c as [|p]; [reflexivity|].
+  do 7 (destruct p as [p|p|]; try reflexivity). exfalso; apply H; reflexivity.
+Qed.
+
+Lemma unescape_escape s : unescape (escape s) = s.
+Proof.
+  induction s as [|c s IH]; [reflexivity|]. rewrite escape_cons.
+  destruct (is_special c) eqn:E.
+  - simpl. rewrite IH. reflexivity.
+  - simpl app. rewrite unescape_plain; [rewrite IH; reflexivity|].
+    intro; subst. discriminate E.
+Qed.
+
+Lemma escape_app a b : escape (a ++ b) = escape a ++ escape b.
+Proof. unfold escape. apply flat_map_app. Qed.
+
+Lemma escape_injective a b : escape a = escape b -> a = b.
+Proof. intro H. rewrite <- (unescape_escape a), <- (unescape_escape b), H. reflexivity. Qed.
